@@ -1,11 +1,8 @@
 package object
 
 import (
-	"bytes"
 	"context"
-	"fmt"
 	"sort"
-	"strings"
 
 	"github.com/risor-io/risor/op"
 )
@@ -15,7 +12,6 @@ type Map struct {
 
 	// Used to avoid the possibility of infinite recursion when inspecting.
 	// Similar to the usage of Py_ReprEnter in CPython.
-	inspectActive bool
 }
 
 func (m *Map) Type() Type {
@@ -23,24 +19,9 @@ func (m *Map) Type() Type {
 }
 
 func (m *Map) Inspect() string {
-	// A map can contain itself. Detect if we're already inspecting the map
-	// and return a placeholder if so.
-	if m.inspectActive {
-		return "{...}"
-	}
-	m.inspectActive = true
-	defer func() { m.inspectActive = false }()
-
-	var out bytes.Buffer
-	pairs := make([]string, 0)
-	for _, k := range m.SortedKeys() {
-		v := m.items[k]
-		pairs = append(pairs, fmt.Sprintf("%q: %s", k, v.Inspect()))
-	}
-	out.WriteString("{")
-	out.WriteString(strings.Join(pairs, ", "))
-	out.WriteString("}")
-	return out.String()
+	// A map can contain itself: the walk notes the containers it is in (see
+	// cycles.go) and prints a placeholder for one that it meets again
+	return m.inspectVisit(newInspectVisit())
 }
 
 func (m *Map) String() string {
